@@ -146,6 +146,12 @@ pub struct QfModel {
     pub classes: Classes,
     /// include the per-element inserted mask in the state (C01 runs, one element per class)
     pub track_elements: bool,
+    /// property whose violations are preferred when several invariants fail at once
+    pub focus: &'static str,
+    /// true: any violated oracle ends the branch; false: only `focus` does
+    pub strict: bool,
+    /// violations of other properties seen while exploring (not verdicts of this run)
+    pub other: std::sync::atomic::AtomicU64,
 }
 
 fn viol(p: &str, sig: String, msg: String) -> Violation {
@@ -158,21 +164,22 @@ impl QfModel {
         if classes.n_classes > 128 || cfg.universe.len() > 128 {
             return Err("universe too large for the bitmask reference".into());
         }
-        Ok(Self { cfg, classes, track_elements })
+        Ok(Self { cfg, classes, track_elements, focus: if track_elements { "C01" } else { "C13" }, strict: false, other: std::sync::atomic::AtomicU64::new(0) })
     }
     pub fn init(&self) -> St {
         St { f: self.cfg.fresh(), set: 0, inserted: 0, tainted: false, hist: vec![] }
     }
     /// all state invariants against the reference
-    pub fn check_state(&self, s: &St, ctx: &str) -> Result<(), Violation> {
+    pub fn check_state_all(&self, s: &St, ctx: &str) -> Vec<Violation> {
+        let mut vs: Vec<Violation> = vec![];
         let cfg = &self.cfg;
         let n = s.set.count_ones() as usize;
         let tag = |p: &str| if s.tainted { "C12".to_string() } else { p.to_string() };
         if s.f.len() != n {
-            return Err(viol(&tag("C13"), format!("{} len", cfg.label), format!("{}: len() = {} but {} distinct classes inserted", ctx, s.f.len(), n)));
+            vs.push(viol(&tag("C13"), format!("{} len", cfg.label), format!("{}: len() = {} but {} distinct classes inserted", ctx, s.f.len(), n)));
         }
         if s.f.is_empty() != (n == 0) {
-            return Err(viol(&tag("C19"), format!("{} is_empty", cfg.label), format!("{}: is_empty() = {} with {} classes", ctx, s.f.is_empty(), n)));
+            vs.push(viol(&tag("C19"), format!("{} is_empty", cfg.label), format!("{}: is_empty() = {} with {} classes", ctx, s.f.is_empty(), n)));
         }
         for (i, &k) in cfg.universe.iter().enumerate() {
             let got = s.f.query(&Key(k));
@@ -181,10 +188,19 @@ impl QfModel {
                 let inserted_itself = (s.inserted >> i) & 1 == 1;
                 let p = if !got && inserted_itself { "C01" } else { "C13" };
                 let kind = if got { "phantom" } else { "false-negative" };
-                return Err(viol(&tag(p), format!("{} query {}", cfg.label, kind), format!("{}: query({:#x}) = {} but reference says {}", ctx, k, got, want)));
+                vs.push(viol(&tag(p), format!("{} query {}", cfg.label, kind), format!("{}: query({:#x}) = {} but reference says {}", ctx, k, got, want)));
             }
         }
-        Ok(())
+        vs
+    }
+    /// first violated invariant, preferring the focus property
+    pub fn check_state(&self, s: &St, ctx: &str) -> Result<(), Violation> {
+        let mut vs = self.check_state_all(s, ctx);
+        if vs.is_empty() {
+            return Ok(());
+        }
+        let i = vs.iter().position(|v| v.property == self.focus).unwrap_or(0);
+        Err(vs.swap_remove(i))
     }
 }
 
@@ -216,11 +232,14 @@ impl Model for QfModel {
         let before_key = raw_key(&s.f);
         let res = mccore::panics::catch(|| s.f.insert(&Key(k)));
         let ctx = format!("insert({:#x})", k);
+        // every oracle is evaluated; a violation of the property this run decides (`focus`) ends
+        // the branch, violations of other properties are counted and exploration continues
+        let mut vs: Vec<Violation> = vec![];
         let kind = match res {
             Err(p) => return Err(viol("C13", format!("{} insert panics", cfg.label), format!("{} panicked: {}", ctx, p))),
             Ok(Ok(true)) => {
                 if known || full {
-                    return Err(viol("C13", format!("{} insert result Ok(true)", cfg.label), format!("{} returned Ok(true) but class known={} full={}", ctx, known, full)));
+                    vs.push(viol("C13", format!("{} insert result Ok(true)", cfg.label), format!("{} returned Ok(true) but class known={} full={}", ctx, known, full)));
                 }
                 s.set |= 1 << c;
                 s.inserted |= 1 << *op;
@@ -229,19 +248,19 @@ impl Model for QfModel {
             }
             Ok(Ok(false)) => {
                 if !known {
-                    return Err(viol("C13", format!("{} insert result Ok(false)", cfg.label), format!("{} returned Ok(false) for a class never inserted (len {})", ctx, before_obs.0)));
+                    vs.push(viol("C13", format!("{} insert result Ok(false)", cfg.label), format!("{} returned Ok(false) for a class never inserted (len {})", ctx, before_obs.0)));
                 }
                 s.inserted |= 1 << *op;
                 1
             }
             Ok(Err(_)) => {
                 if known || !full {
-                    return Err(viol("C13", format!("{} insert result Err", cfg.label), format!("{} returned Err(Full) but class known={} len={} capacity={}", ctx, known, before_obs.0, cfg.capacity())));
+                    vs.push(viol("C13", format!("{} insert result Err", cfg.label), format!("{} returned Err(Full) but class known={} len={} capacity={}", ctx, known, before_obs.0, cfg.capacity())));
                 }
                 // C12: observable state unchanged by the failed call
                 let after = obs(cfg, &s.f);
                 if after != before_obs {
-                    return Err(viol("C12", format!("{} failed insert changes observations", cfg.label), format!("{} failed but observations changed: {:?} -> {:?}", ctx, before_obs, after)));
+                    vs.push(viol("C12", format!("{} failed insert changes observations", cfg.label), format!("{} failed but observations changed: {:?} -> {:?}", ctx, before_obs, after)));
                 }
                 if raw_key(&s.f) != before_key {
                     s.tainted = true; // futures are explored and attributed to C12
@@ -249,7 +268,16 @@ impl Model for QfModel {
                 2
             }
         };
-        self.check_state(s, &format!("after {}", ctx))?;
+        vs.extend(self.check_state_all(s, &format!("after {}", ctx)));
+        if let Some(i) = vs.iter().position(|v| v.property == self.focus) {
+            return Err(vs.swap_remove(i));
+        }
+        if !vs.is_empty() {
+            self.other.fetch_add(vs.len() as u64, std::sync::atomic::Ordering::Relaxed);
+            if self.strict {
+                return Err(vs.swap_remove(0));
+            }
+        }
         Ok(kind)
     }
 }
